@@ -8,6 +8,7 @@ package proxy
 // every command logs the registries as incarnation numbers; verdicts come from ShardLifeObs.tla.
 
 import (
+	"sort"
 	"bufio"
 	"bytes"
 	"context"
@@ -24,6 +25,7 @@ import (
 	"time"
 
 	"go.temporal.io/server/api/adminservice/v1"
+	persistencespb "go.temporal.io/server/api/persistence/v1"
 	replicationv1 "go.temporal.io/server/api/replication/v1"
 	"go.temporal.io/server/client/history"
 	"go.temporal.io/server/common/channel"
@@ -85,6 +87,7 @@ type vlfReceiver struct {
 	sd       channel.ShutdownOnce
 	openGate chan struct{}
 	atOpen   bool
+	retry    bool // holds a task batch in the routing retry loop
 }
 
 type vlfHarness struct {
@@ -102,6 +105,7 @@ type vlfHarness struct {
 	npc   string
 	crash string
 	wait  time.Duration
+	nbatch int
 }
 
 func (h *vlfHarness) emit(ev map[string]interface{}) {
@@ -222,6 +226,9 @@ func (c *vlfCliStream) Recv() (*adminservice.StreamWorkflowReplicationMessagesRe
 	var err error
 	select {
 	case m := <-c.batch:
+		c.h.mu.Lock()
+		c.inRecv = false
+		c.h.mu.Unlock()
 		return m, nil
 	case <-c.end:
 		err = io.EOF
@@ -296,13 +303,18 @@ func (h *vlfHarness) snapshot() map[string]interface{} { // caller holds mu
 		cancel = -1 // present; identity is probed destructively at the end of the run
 	}
 	pcs, pcr := map[string]string{}, map[string]string{}
+	dead := []int{} // receiver incarnations whose upstream stream context is done
 	for k, s := range h.snd {
 		pcs[fmt.Sprint(k)] = s.pc
 	}
 	for k, r := range h.rcv {
 		pcr[fmt.Sprint(k)] = r.pc
+		if r.cli != nil && r.cli.ctx != nil && r.cli.ctx.Err() != nil {
+			dead = append(dead, k)
+		}
 	}
-	return map[string]interface{}{"local": local, "send": send, "ack": ack, "active": active, "cancel": cancel, "pcS": pcs, "pcR": pcr}
+	sort.Ints(dead)
+	return map[string]interface{}{"local": local, "send": send, "ack": ack, "active": active, "cancel": cancel, "pcS": pcs, "pcR": pcr, "dead": dead}
 }
 
 func (h *vlfHarness) step(name string, k int, ok bool, before map[string]interface{}) {
@@ -545,6 +557,60 @@ func (h *vlfHarness) exec1(c vlfCmd) bool {
 		}
 		r.pc = "running"
 		return true
+	case "RBatch", "RBatchRetry":
+		// a task batch for the target shard (localShardCount = 1: every workflow hashes to shard 1) arrives on the receiver's stream
+		r := h.rcv[c.K]
+		if r == nil || r.pc != "running" || r.retry {
+			return false
+		}
+		if !h.waitCond(func() bool { return r.cli != nil && r.cli.inRecv }) {
+			return false
+		}
+		h.nbatch++
+		id := int64(100 + h.nbatch)
+		msg := &adminservice.StreamWorkflowReplicationMessagesResponse{Attributes: &adminservice.StreamWorkflowReplicationMessagesResponse_Messages{
+			Messages: &replicationv1.WorkflowReplicationMessages{ExclusiveHighWatermark: id + 1, ReplicationTasks: []*replicationv1.ReplicationTask{{
+				SourceTaskId: id, RawTaskInfo: &persistencespb.ReplicationTaskInfo{NamespaceId: "verif-ns", WorkflowId: "wf", RunId: "run", TaskId: id}}}}}}
+		select {
+		case r.cli.batch <- msg:
+		case <-time.After(h.wait):
+			return false
+		}
+		h.mu.Lock()
+		r.cli.inRecv = false // taken by Recv; true again when the receiver calls Recv the next time
+		h.mu.Unlock()
+		if c.A == "RBatch" {
+			// handed to the registered delivery channel: the receiver is back in Recv
+			return h.waitCond(func() bool { return r.cli.inRecv })
+		}
+		// nowhere to hand it: the receiver stays in its retry loop (it does not come back to Recv)
+		time.Sleep(60 * time.Millisecond)
+		h.mu.Lock()
+		back := r.cli.inRecv
+		h.mu.Unlock()
+		if back {
+			return false
+		}
+		r.retry = true
+		return true
+	case "RRetry":
+		r := h.rcv[c.K]
+		if r == nil || !r.retry {
+			return false
+		}
+		// the back-off of the retry loop grows to 1 s
+		dl := time.Now().Add(3 * time.Second)
+		for time.Now().Before(dl) {
+			h.mu.Lock()
+			back := r.cli.inRecv
+			h.mu.Unlock()
+			if back {
+				r.retry = false
+				return true
+			}
+			time.Sleep(5 * time.Millisecond)
+		}
+		return false
 	case "RExit", "RCleanup":
 		r := h.rcv[c.K]
 		if r == nil {
@@ -558,11 +624,18 @@ func (h *vlfHarness) exec1(c vlfCmd) bool {
 		}
 		r.cli.endOnce.Do(func() { close(r.cli.end) })
 		close(r.cli.exitGate)
+		exitWait := h.wait
+		if r.retry {
+			// the receiver is not in Recv: its stream's shutdown handle is what tells it (the handler's other half has ended)
+			r.sd.Shutdown()
+			exitWait = 3 * time.Second
+		}
 		select {
 		case <-r.done:
-		case <-time.After(h.wait):
+		case <-time.After(exitWait):
 			return false
 		}
+		r.retry = false
 		r.pc = "done"
 		return true
 	case "NLookup":
@@ -729,6 +802,8 @@ func (h *vlfHarness) finish() {
 				close(r.cli.exitGate)
 			}
 		}
+		// a receiver that is not in Recv (routing retry loop) learns of the end through the stream handler's shutdown handle
+		r.sd.Shutdown()
 	}
 	clean := true
 	for _, s := range h.snd {
@@ -750,15 +825,31 @@ func (h *vlfHarness) finish() {
 	buf := make([]byte, 1<<20)
 	n := runtime.Stack(buf, true)
 	workers := 0
+	kinds := []string{}
 	for _, g := range bytes.Split(buf[:n], []byte("\n\n")) {
 		if bytes.Contains(g, []byte("proxy.(*proxyStreamSender)")) || bytes.Contains(g, []byte("proxy.(*proxyStreamReceiver)")) {
+			// a worker that an earlier run of this process left behind was reported there
+			gl := string(bytes.SplitN(g, []byte(" ["), 2)[0])
+			if vlfLeaked[gl] {
+				continue
+			}
+			vlfLeaked[gl] = true
 			workers++
+			for _, ln := range bytes.Split(g, []byte("\n")) {
+				if bytes.Contains(ln, []byte("proxy.(*proxyStream")) {
+					kinds = append(kinds, string(bytes.TrimSpace(ln)))
+					break
+				}
+			}
 		}
 	}
+	sort.Strings(kinds)
 	h.mu.Lock()
-	h.emit(map[string]interface{}{"ev": "End", "snap": h.snapshot(), "clean": clean, "workers": workers, "crash": h.crash})
+	h.emit(map[string]interface{}{"ev": "End", "snap": h.snapshot(), "clean": clean, "workers": workers, "kinds": kinds, "crash": h.crash})
 	h.mu.Unlock()
 }
+
+var vlfLeaked = map[string]bool{}
 
 func TestVerifLifeSchedules(t *testing.T) {
 	in := os.Getenv("VERIF_IN")
